@@ -19,7 +19,7 @@ import ast
 
 from ..lincomb import LinComb
 from ..matalg import Alg, MatEval, NeedSplit, Val
-from ..model import Program, call_name, is_self_attr, norm
+from ..model import Program, call_name, is_self_attr, norm, inline_private_helpers
 from ..poly import Rat, sign_atom
 from ..report import AnalysisError
 from ..typeeval import TOP, Lattice, TypeEval
@@ -265,6 +265,14 @@ def instance_lemmas(k, alg: Alg, args, attrs):
         alg.lemmas.append(((("m", "A", False, True),), alg.mul(alg.inv(alg.T(F)), alg.inv(F)).scale(sgn)))
 
 
+def _with_helpers_inlined(f):
+    """Member with private helper methods / functions of its class / module inlined (a product or
+    a scaled-blocks tuple moved into a helper is evaluated where it is used)."""
+    import dataclasses
+
+    return dataclasses.replace(f, node=inline_private_helpers(f, methods=True))
+
+
 def rule_algebra(rep, program: Program):
     r1 = rep.rule("R1", "left product, right product, dense array and transpose of each class denote one operator", floor=91)
     r4 = rep.rule("R4", "inverse, square root and scalar multiple satisfy M^-1 M = I, S S^T = M, (c M) = c * M", floor=53)
@@ -279,6 +287,7 @@ def rule_algebra(rep, program: Program):
             f = k.resolve(member)
             if f is None or f.is_abstract:
                 continue
+            f = _with_helpers_inlined(f)
             if cname in R1_ONLY and member not in ("_left_matrix_multiply", "_right_matrix_multiply", "_construct_array", "_construct_transpose"):
                 continue
             for lu_flag in ((False, True) if cname in LU_CLASSES else (None,)):
@@ -497,6 +506,7 @@ def rule_blocks(rep, program: Program, tier: str):
             f = k.resolve(member)
             if f is None or f.is_abstract:
                 continue
+            f = _with_helpers_inlined(f)
             for n in ns:
                 alg = Alg()
                 be = BlockEval(program, k, alg, n, member)
@@ -597,9 +607,11 @@ class _ParityEval(TypeEval):
         body = f.body_without_docstring()
         for st in body:
             if isinstance(st, ast.If) and "is None" in norm(st.test):
+                env = {}
                 for s in st.body:
-                    if isinstance(s, ast.Assign) and is_self_attr(s.targets[0]):
-                        return self.ev(f, s.value, {})
+                    if isinstance(s, ast.Assign) and len(s.targets) == 1 and is_self_attr(s.targets[0]):
+                        return self.ev(f, s.value, env)
+                    self._stmt(f, s, env)  # named parts of the definition
         return self.func(f)
 
     def ev(self, f, e, env):
